@@ -145,3 +145,14 @@ def _canary_sampler_unsynchronised_data():
 CANARIES = [("edge mode behaves like level mode", _canary_edge_is_level),
             ("polarity inverted", _canary_polarity_swapped),
             ("InputSampler returns unsynchronised data", _canary_sampler_unsynchronised_data)]
+
+
+def _callers_items():
+    from transactron.lib.basicio import InputSampler, OutputBuffer
+
+    return [("InputSampler(2 bits)", lambda: InputSampler([("d", 2)]), [("get", ["get"])], []),
+            ("OutputBuffer(2 bits)", lambda: OutputBuffer([("d", 2)]), [("put", ["put"])], [])]
+
+
+from ..excl import install as _install  # noqa: E402
+_install(globals(), _callers_items())
